@@ -252,17 +252,20 @@ Definition render (c : bytes * bytes) : bytes :=
 
 (* ------------------------------------------------------------------ URLSetSanitized *)
 
-Definition cand_ok (c : bytes * bytes) : bool :=
-  negb (is_nil (fst c)) && is_safe_url (fst c) && is_optional_src_metadata_well_formed (snd c).
+(* The URL test is a parameter only so that the OCaml driver can pass a memoising wrapper of the
+   extracted (pure) is_safe_url; the model is the instance at is_safe_url, by definition. *)
+Definition cand_ok_with (safe : bytes -> bool) (c : bytes * bytes) : bool :=
+  negb (is_nil (fst c)) && safe (fst c) && is_optional_src_metadata_well_formed (snd c).
 
 Definition sep : bytes := B " , ".
 
-Definition append_cand (buf : bytes) (c : bytes * bytes) : bytes :=
-  if cand_ok c then (if is_nil buf then [] else buf ++ sep) ++ render c else buf.
+Definition append_cand_with (safe : bytes -> bool) (buf : bytes) (c : bytes * bytes) : bytes :=
+  if cand_ok_with safe c then (if is_nil buf then [] else buf ++ sep) ++ render c else buf.
 
 (* the for loop; every iteration that continues has consumed a ',' so S (length s) rounds
    suffice (proofs/UrlSetFacts.v: url_loop_fuel); None = fuel exhausted, never happens *)
-Fixpoint url_loop (fuel : nat) (s : bytes) (buf : bytes) : option bytes :=
+Fixpoint url_loop_with (safe : bytes -> bool) (fuel : nat) (s : bytes) (buf : bytes)
+  : option bytes :=
   match fuel with
   | O => None
   | S f =>
@@ -270,20 +273,23 @@ Fixpoint url_loop (fuel : nat) (s : bytes) (buf : bytes) : option bytes :=
       | [] => Some buf
       | _ =>
           let '(c, rest) := scan_one s in
-          let buf' := append_cand buf c in
+          let buf' := append_cand_with safe buf c in
           match rest with
-          | b :: rest' => if b =? 44 then url_loop f rest' buf' else Some buf'
+          | b :: rest' => if b =? 44 then url_loop_with safe f rest' buf' else Some buf'
           | [] => Some buf'
           end
       end
   end.
 
-Definition urlset_sanitized (s : bytes) : bytes :=
-  match url_loop (S (length s)) s [] with
+Definition urlset_sanitized_with (safe : bytes -> bool) (s : bytes) : bytes :=
+  match url_loop_with safe (S (length s)) s [] with
   | Some [] => innocuous_url
   | Some buf => buf
   | None => []
   end.
+
+Definition cand_ok : bytes * bytes -> bool := cand_ok_with is_safe_url.
+Definition urlset_sanitized : bytes -> bytes := urlset_sanitized_with is_safe_url.
 
 (* the (url, metadata) pairs the loop reads, in order *)
 Fixpoint scan (fuel : nat) (s : bytes) : list (bytes * bytes) :=
@@ -302,3 +308,31 @@ Fixpoint scan (fuel : nat) (s : bytes) : list (bytes * bytes) :=
   end.
 
 Definition scan_all (s : bytes) : list (bytes * bytes) := scan (S (length s)) s.
+
+(* ------------------------------------------------------------------ vocabulary of the theorems *)
+Fixpoint join (sp : bytes) (l : list bytes) : bytes :=
+  match l with
+  | [] => []
+  | x :: l' => match l' with [] => x | _ => x ++ sp ++ join sp l' end
+  end.
+
+(* the descriptor tokens a candidate is written with *)
+Definition descr_tokens (m : bytes) : list bytes := match m with [] => [] | _ => [m] end.
+
+(* "copied, in order, from s": s read as  ws* url ws* metadata ws*  items separated by ","
+   (what follows an item that is not followed by "," is ignored, as the loop does) *)
+Definition all_ws (w : bytes) : Prop := Forall (fun b => mem_N b T_asciiWhitespace = true) w.
+
+Inductive reads : bytes -> list (bytes * bytes) -> Prop :=
+| reads_nil : reads [] []
+| reads_last w1 u w2 m w3 rest :
+    all_ws w1 -> all_ws w2 -> all_ws w3 ->
+    match rest with [] => True | b :: _ => b <> 44 end ->
+    reads (w1 ++ u ++ w2 ++ m ++ w3 ++ rest) [(u, m)]
+| reads_more w1 u w2 m w3 s' cs :
+    all_ws w1 -> all_ws w2 -> all_ws w3 -> reads s' cs ->
+    reads (w1 ++ u ++ w2 ++ m ++ w3 ++ 44 :: s') ((u, m) :: cs).
+
+(* one leading and one trailing "," of a URL written as "%2c", everything else verbatim *)
+Definition pct_ends (lead trail : bool) (comma mid : bytes) : bytes :=
+  (if lead then comma else []) ++ mid ++ (if trail then comma else []).
